@@ -227,6 +227,7 @@ CFG_ALPHABET = [
     ("fp16", cdesc(None, tdesc(16, True, "TENSORWISE", "FLOAT"), "FLOAT", True)),
     ("skip_weird", cdesc(tdesc(8, False), tdesc(3, False, "CHANNELWISE"), "INTEGER", True, True)),
     ("skip_noweight", cdesc(None, None, "INTEGER", False, True)),
+    ("skip_fp16", cdesc(None, tdesc(16, True, "TENSORWISE", "FLOAT"), "FLOAT", True, True)),
     ("ctor_bad", cdesc(tdesc(8, True), tdesc(8, True, "TENSORWISE", "FLOAT"), "INTEGER", False)),
     ("ctor_bad2", cdesc(tdesc(8, True), tdesc(8, True), "FLOAT", False)),
     ("block", cdesc(None, tdesc(4, True, "BLOCKWISE", "INT", 32), "FLOAT", True)),
@@ -245,7 +246,7 @@ def queries(scopes=SCOPES, ops=QUERY_OPS):
 def gen_add(rng, small=False):
     name, cfg = rng.choice(CFG_ALPHABET)
     alg = rng.choice(ALG_ALPHABET if rng.random() < 0.25 else ALG_ALPHABET[:3])
-    if name == "fp16" and rng.random() < 0.8:
+    if name in ("fp16", "skip_fp16") and rng.random() < 0.8:
         alg = "float_casting"
     c = {"k": "add", "regex": rng.choice(REGEXES[:4] if small else REGEXES), "operation": rng.choice(OP_ALPHABET),
          "cfg": None if rng.random() < 0.1 else cfg, "alg": alg, "use_enum": rng.random() < 0.7}
@@ -280,7 +281,7 @@ def spec_resolve(adds_ok, opname, scope):
             if operation not in ("*", opname):
                 continue
             c = cfg if cfg is not None else cdesc()
-            if alg != "no_quantize":
+            if alg != "no_quantize" and not c.get("sk"):   # a config with skip_checks passes the support check for EVERY operator, by definition
                 r = real_accepts(alg, opname, c)
                 if r != ("ok", True):
                     continue
